@@ -155,6 +155,46 @@ def run(v, tier):
     v.cov['exhaustive_short_programs'] = len(progs)
     v.sample({'phase': cases[100]['phase'], 'bytes': cases[100]['bytes'], 'out': cases[100]['out']})
     report(v, validate_stream(v, 'c05-short', cases), 'exhaustive short program')
+    # 2b. every proper prefix of every instruction encoding (alone and after a valid prefix) must be rejected,
+    #     the full encoding is judged by the machine
+    I = machine.ins
+    singles = [I('EVar', 1), I('SVar', 0), I('Symbol', 2), I('Mu', 0), I('Exists', 1), I('ESubst', 0), I('SSubst', 1), I('Generalization', 0),
+               I('Substitution', 1), I('Load', 0), I('CleanMetaVar', 1), machine.iinst([0]), machine.iinst([1, 0]), machine.iinst([]),
+               I('MetaVar', 0, (), ([], [], [], [], [])), I('MetaVar', 1, (), ([0], [], [], [], [])), I('MetaVar', 2, (), ([0, 1], [1], [0], [1], [2])),
+               I('MetaVar', 0, (), ([], [], [], [], [1, 2])), I('MetaVar', 0, (), ([], [], [3], [], [])), I('MetaVar', 0, (), ([1], [], [], [], [1]))]
+    progs = []
+    for i in singles:
+        enc = machine.encode(i)
+        for cut in range(1, len(enc) + 1):
+            for phase in ('gamma', 'claim', 'proof'):
+                for pre in PRELOADS.values():
+                    progs.append((phase, pre, enc[:cut]))
+                    progs.append((phase, pre, [12] + enc[:cut]))
+                    progs.append((phase, pre, enc + enc[:cut]))
+    cases = phase_cases(progs)
+    v.cov['truncation_programs'] = len(progs)
+    report(v, validate_stream(v, 'c05-trunc', cases), 'truncated operand')
+    # 2c. tiny three-phase programs: every combination of snippets per phase through the real verify()
+    #     (stack cleared between phases, memory persists, claims consumed in reverse, nothing left over)
+    snippets = [[], [2, 0], [2, 0, 30], [137, 0, 30, 137, 1, 30], [137, 0, 30, 137, 0, 137, 0, 5, 30], [12], [12, 30], [27], [28], [29, 0], [29, 0, 30], [29, 1, 30],
+                [2, 0, 28, 30], [137, 0, 137, 0, 5, 28, 30, 2, 1], [12, 27]]
+    triples = [(g, c, p) for g in snippets for c in snippets for p in snippets]
+    if quick:
+        triples = rng.sample(triples, 1200)
+    cases = verify_cases(triples)
+    v.cov['three_phase_snippet_programs'] = len(triples)
+    report(v, validate_stream(v, 'c05-3phase', cases, bs=100), 'three-phase snippet program')
+    # 2d. the substitution / instantiation functions of the checker against the machine's strict operators
+    import c11, funcs
+    u = pi2v.universes()
+    terms = u['U1'] + rng.sample(u['U2S'], 300 if quick else 3115)
+    fc = c11.subst_cases('rust', terms, rng, 3 if quick else 6) + c11.inst_cases('rust', terms, rng, 3 if quick else 8)
+    res, _ = funcs.run_blocks(v, 'C05', 'Trace_Subst', 'c05-fn', fc, ' Mode = "trace"', bs=300, needs_sem=True)
+    for f in res.fails:
+        c = fc[f[1] - 1]
+        arg = {k: c[k] for k in ('x', 'g', 'ids', 'plugs') if k in c}
+        v.fail(f"fn-{f[2]}:{c['fn']}:{tkey(c['p'])}:{tkey(arg)}", f"rust {c['fn']} on {tkey(c['p'])[:200]} with {tkey(arg)[:200]}: out={c['out']}, clause {f[2]}",
+               {'family': 'subst', 'case': c})
     # 3. shipped triples: real verify(), checker binary, and mutations of them
     ship = shipped_triples()
     small = [t for _, t in ship if sum(map(len, t)) < (6000 if quick else 10 ** 9)]
